@@ -19,6 +19,18 @@ def run_extra(pid, tier, seed, repo, reg, cache):
     if pid == "C20":
         from . import models
         return models.run(tier, repo.root)
+    if pid == "C14":
+        # meta-lemmas over the generic propagator contract (idempotence and uniqueness of the exact hull follow from P1, P2, P5)
+        from . import metalemmas
+        res = dict(obligations=0, discharged=0, violations=[], undecided=[], errors=[], samples=[], evidence=[])
+        for name, status, dt in metalemmas.prove_all():
+            res["obligations"] += 1
+            if status == "proved":
+                res["discharged"] += 1
+            else:
+                res["errors"].append(f"meta-lemma {name}: {status}")
+            res["evidence"].append(dict(obligation="meta-lemma/" + name, status=status, seconds=round(dt, 3)))
+        return res
     return None
 
 # ---------------------------------------------------------------------------------------------- claims (MANIFEST is generated from this)
